@@ -816,7 +816,10 @@ def parse_html(html):
     Parses an HTML fragment, returning an lxml element.  Note that the HTML
     will be wrapped in a <div> tag that was not in the original document.
     """
-    return html5_parser.parse(html, treebuilder='lxml')
+    # The fragment is the content of a `<body>`; say so, or a leading
+    # `<noscript>`, `<template>`, etc. is parsed as part of the `<head>`
+    # (and a `<noscript>` there loses its non-metadata content).
+    return html5_parser.parse('<body>' + html, treebuilder='lxml')
 
 
 def split_trailing_whitespace(word):
